@@ -81,8 +81,17 @@ thread_local! {
     static SCALE: std::cell::Cell<f64> = const { std::cell::Cell::new(3.0) };
 }
 
+thread_local! {
+    /// largest number of distances of one (query, track) pair in the case being checked
+    static VOTES: std::cell::Cell<f64> = const { std::cell::Cell::new(5.0) };
+}
+
+/// A weight is a sum over the votes of fl32(largest - d), each term rounded by at most half an ulp
+/// of a value no larger than the distance magnitude (6e-8 x magnitude); two weights are compared
+/// by the library on their rounded values, hence twice that per vote, plus a relative part for
+/// the f64 summation order.
 fn wtol(w: f64) -> f64 {
-    1e-6 * w.abs() + 3.4e-6 * SCALE.with(|s| s.get())
+    1e-6 * w.abs() + 1.3e-7 * VOTES.with(|s| s.get()) * SCALE.with(|s| s.get())
 }
 
 fn check_topn_result(c: &StreamCase, claims: &BTreeMap<(u64, u64), f64>, res: &HashMap<u64, Vec<TopNVotingElt>>) -> Result<(), Fail> {
@@ -197,6 +206,11 @@ pub fn check_stream(c: &StreamCase) -> CaseResult {
     SHARED_IDS.with(|s| s.set(c.shared_ids));
     let mag = c.items.iter().filter_map(|it| it.2).fold(0.0f64, |m, d| m.max(d.abs() as f64));
     SCALE.with(|s| s.set(if mag > 0.0 { mag } else { 3.0 }));
+    let mut per_pair: BTreeMap<(u8, u8), usize> = BTreeMap::new();
+    for it in &c.items {
+        *per_pair.entry((it.0, it.1)).or_default() += 1;
+    }
+    VOTES.with(|s| s.set(per_pair.values().copied().max().unwrap_or(1).max(1) as f64));
     let r = check_stream_inner(c);
     SHARED_IDS.with(|s| s.set(false));
     SCALE.with(|s| s.set(3.0));
